@@ -80,8 +80,11 @@ def data_type(t):
     return 11
 
 
-def render(rng, items, natoms, snapshot, steps, exp=-15):
-    """exp: timescale exponent -15..0; all times must be multiples of 10^(exp+15) fs"""
+def render(rng, items, natoms, snapshot, steps, exp=-15, dups=None):
+    """exp: timescale exponent -15..0; all times must be multiples of 10^(exp+15) fs.
+    dups: when a list is given, later value-change blocks may start their time chain with the LAST time of the previous block
+    (the time table then holds that time twice); under the repeated entry either no record at all (`<p>e`) or a record for
+    every signal re-writing its current value (`<p>`); p = index of the repeated time among the distinct times, appended to the list"""
     out = vcd_writer.VcdOut(rng)          # reuse the leaf bookkeeping (distinct signals, widths, kinds)
     hier = bytearray()
     nscopes = [0]
@@ -211,11 +214,19 @@ def render(rng, items, natoms, snapshot, steps, exp=-15):
         groups.append(rest[i:i + n])
         i += n
     cur_frame = frame_vals
+    ev_pos = 1 if use_frame else 0      # index of the group's first event among the distinct times
     for gi, grp in enumerate(groups):
         start_time = t0 if (gi == 0) else grp[0][0]
         if gi == 0 and not use_frame:
             start_time = grp[0][0]
         end_time = grp[-1][0]
+        if dups is not None and gi > 0 and rng.random() < 0.75:
+            empty = rng.random() < 0.3
+            prev_t = groups[gi - 1][-1][0]
+            dups.append(f"{ev_pos - 1}e" if empty else f"{ev_pos - 1}")
+            grp = [[prev_t, set() if empty else set(range(nh)), cur_frame]] + list(grp)
+            start_time = prev_t
+        ev_pos += len(groups[gi])
         chain_times = [e[0] for e in grp]
         # per leaf: records
         streams = {}
